@@ -6,7 +6,7 @@ import ast
 from .. import AnalysisError
 from ..model import ClassInfo, resolve_handler
 from ..oracles import DENOT, OPERATOR_FUNCS
-from ..rules import (check_attr_existence, child_kinds, handler_summaries,
+from ..rules import (effective_member, check_attr_existence, child_kinds, handler_summaries,
                      is_raising, mapper_node_pairs, where)
 from ..summary import NODE, base_field, contains, rec_fields, summarize
 
@@ -464,7 +464,7 @@ def _variants(ctx, model):
     check_lookaside(ctx, model)
     # the mix-in must win in both
     for c in (ev, cev):
-        mem = model.lookup(c, "map_common_subexpression")
+        mem = effective_member(model, c, "map_common_subexpression")
         ok = mem is not None and mem.owner.name == "CSECachingMapperMixin"
         ctx.ob(f"S/{c.name}/cse-mixin", ok, c.loc(),
                "wrappers go through the per-evaluation cache" if ok else
